@@ -170,6 +170,8 @@ func c08EstRun(rc *RunCtx, p *C08Params) {
 	}
 	third := Addr(9, 999)
 	ok = true
+	spoofSeq := uint64(0x200000)
+	futureMsg := 0
 	for j := 0; j < p.N && ok; j++ {
 		d := s.Ch.Draw("hostile-at", func(r *rand.Rand) Dec {
 			return Dec{A: int64(r.Uint32()) + 1, B: int64(r.IntN(2)), C: int64(r.IntN(8))}
@@ -212,6 +214,39 @@ func c08EstRun(rc *RunCtx, p *C08Params) {
 			}
 			data, kind = keyedMalformed(hr, x.ref12, k13, epoch, toServer, peerCID, uint64(1000+j))
 			kind = "keyed:" + kind
+		case p.Mode == "R":
+			// a spoofed retransmission: one of the peer's cleartext handshake datagrams again,
+			// with record numbers the replay window has not seen
+			var clear [][]byte
+			for _, c := range captured {
+				if recs, perr := ParseDatagram(c, cidLen); perr == nil && len(recs) > 0 && !recs[0].Unified && recs[0].Epoch == 0 && recs[0].Type == CTHandshake {
+					clear = append(clear, c)
+				}
+			}
+			if len(clear) > 0 && hr.IntN(2) == 0 {
+				data, kind = freshRecordNumbers(clear[hr.IntN(len(clear))], &spoofSeq), "spoofed-retransmission"
+			} else if len(clear) > 0 {
+				// small complete handshake messages that continue the peer's message sequence
+				maxSeq := 0
+				for _, c := range clear {
+					recs, _ := ParseDatagram(c, cidLen)
+					for _, r := range recs {
+						for _, f := range r.Hs {
+							maxSeq = max(maxSeq, int(f.MsgSeq))
+						}
+					}
+				}
+				futureMsg++
+				h := make([]byte, 12)
+				h[0] = []byte{11, 14, 12, 16, 20, 1}[hr.IntN(6)]
+				putU24(h[1:], 5)
+				putU16(h[4:], (maxSeq+futureMsg)&0xffff)
+				putU24(h[9:], 5)
+				body := append(h, 1, 2, 3, 4, 5)
+				spoofSeq++
+				rec := []byte{CTHandshake, 0xfe, 0xfd, 0, 0, byte(spoofSeq >> 40), byte(spoofSeq >> 32), byte(spoofSeq >> 24), byte(spoofSeq >> 16), byte(spoofSeq >> 8), byte(spoofSeq), byte(len(body) >> 8), byte(len(body))}
+				data, kind = append(rec, body...), "spoofed-next-handshake-message"
+			}
 		case cfg.C.MaxVer == 12 && hr.IntN(12) == 0:
 			// a change_cipher_spec record that names the current protected epoch: it carries no
 			// MAC, so inside a protected epoch it is a record that cannot authenticate
@@ -233,11 +268,19 @@ func c08EstRun(rc *RunCtx, p *C08Params) {
 		A.net.InjectNow(from, to, data)
 		s.Settle()
 		ok = c08CheckSizes(rc, "client", pair.Client) && c08CheckSizes(rc, "server", pair.Server)
+		if p.Mode == "R" {
+			s.Run(func() bool { return false }, 3*time.Millisecond) // let the answer (if any) leave
+		}
 		if ok && len(s.Panics) == 0 && j%5 == 4 && p.Mode == "U" {
 			write([]string{"c", "s"}[j%2], 100+j, 12+hr.IntN(40))
 		}
 	}
 	if !ok || len(s.Panics) > 0 || s.Overrun() {
+		return
+	}
+	if p.Mode == "R" {
+		s.Probe("survived-spoofed-retransmissions")
+
 		return
 	}
 	if p.Mode == "K" {
@@ -286,4 +329,25 @@ func c08EstRun(rc *RunCtx, p *C08Params) {
 	}
 	s.Probe("served-after-hostile-input:established")
 	_ = dtls.ErrConnClosed
+}
+
+// freshRecordNumbers returns a copy of a datagram whose cleartext (epoch 0) records carry record
+// numbers taken from *next (a peer's retransmission carries fresh numbers, else the replay window
+// drops it before the handshake layer sees it).
+func freshRecordNumbers(d []byte, next *uint64) []byte {
+	data := append([]byte(nil), d...)
+	off := 0
+	if recs, err := ParseDatagram(data, 0); err == nil {
+		for _, r := range recs {
+			if !r.Unified && r.Epoch == 0 {
+				*next++
+				for k := 0; k < 6; k++ {
+					data[off+5+k] = byte(*next >> (8 * (5 - k)))
+				}
+			}
+			off += len(r.Raw)
+		}
+	}
+
+	return data
 }
